@@ -40,6 +40,8 @@ type c19rOp struct {
 	Signal string `json:"signal"`
 	Items  int    `json:"items"`
 	Result string `json:"result"` // ok | error | permanent
+	// Tracing: tracing mode of the whole run (taken from the first operation), see c19_tracing_test.go
+	Tracing string `json:"tracing,omitempty"`
 }
 
 var c19Names = map[string][2]string{
@@ -51,7 +53,11 @@ var c19Names = map[string][2]string{
 func c19rRun(ops []c19rOp) (string, string) {
 	tt := componenttest.NewTelemetry()
 	defer func() { _ = tt.Shutdown(context.Background()) }()
-	set := receiver.Settings{ID: component.MustNewID("vv"), TelemetrySettings: tt.NewTelemetrySettings(), BuildInfo: component.NewDefaultBuildInfo()}
+	mode := ""
+	if len(ops) > 0 {
+		mode = ops[0].Tracing
+	}
+	set := receiver.Settings{ID: component.MustNewID("vv"), TelemetrySettings: c19Tele(tt.NewTelemetrySettings(), mode), BuildInfo: component.NewDefaultBuildInfo()}
 	rec, err := NewObsReport(ObsReportSettings{ReceiverID: set.ID, Transport: "tr", ReceiverCreateSettings: set})
 	if err != nil {
 		return "construct", err.Error()
@@ -65,7 +71,7 @@ func c19rRun(ops []c19rOp) (string, string) {
 		case "permanent":
 			e = fmt.Errorf("wrapped: %w", errors.New("downstream permanent"))
 		}
-		ctx := context.Background()
+		ctx := c19Ctx(mode)
 		w := want[o.Signal]
 		if e == nil {
 			w[0] += int64(o.Items)
@@ -114,7 +120,7 @@ func TestVerif(t *testing.T) {
 	for _, s := range []string{"traces", "metrics", "logs"} {
 		for _, n := range []int{0, 1, 3} {
 			for _, r := range []string{"ok", "error", "permanent"} {
-				alpha = append(alpha, c19rOp{s, n, r})
+				alpha = append(alpha, c19rOp{Signal: s, Items: n, Result: r})
 			}
 		}
 	}
@@ -143,6 +149,13 @@ func TestVerif(t *testing.T) {
 		}
 	}
 	rec(nil, depth)
+	// the tracing dimension: every single operation under the other tracing modes
+	for _, mode := range c19TracingModes[1:] {
+		for _, a := range alpha {
+			a.Tracing = mode
+			rec([]c19rOp{a}, 0)
+		}
+	}
 	ctx.R.States = ctx.R.Evals
 	ctx.Outcome("receiver:balanced")
 }
